@@ -3,6 +3,8 @@
 //   C09 header identity / consecutive counters (shadow)      C10 used encoder == fresh encoder (mod counter offset)
 //   C01 decode(encode(batch)) == batch (snapshot comparison, wire-level header comparison)
 // Each check (--prop) reports only violations of its own property; ASan/UBSan watch every execution.
+#define VF_FAILPOINT_IMPL
+#include "failpoint.h"
 #include <deque>
 #include <forward_list>
 #include <list>
@@ -1332,18 +1334,111 @@ bool bigMaxCase(long idx, Batch& b, Rng& r)
     return true;
 }
 
+// a segmented packet whose FIRST segment travels in the frame with sequence counter 65533 .. 1 (the packets before it fill
+// exactly that many one-byte frames at max = 25), segments of 1 and of several bytes, followed by a small packet
+constexpr long kWrapAlign = 10;
+bool wrapAlignCase(long idx, Batch& b, Rng& r)
+{
+    long d = idx % 5 - 2;  // first segment's counter = 65535 + d
+    bool wide = idx >= 5;
+    b.cfg.max = wide ? 40 : 25;
+    b.cfg.min = 0;
+    size_t per = b.cfg.max - 24;  // payload bytes per frame
+    size_t framesBefore = static_cast<size_t>(65534 + d);
+    // packets of at most 65535 bytes that fill exactly framesBefore full frames
+    size_t bytesBefore = framesBefore * per;
+    while (bytesBefore > 0)
+    {
+        size_t chunkFrames = std::min<size_t>(bytesBefore / per, 65535 / per);
+        PktDesc a = genPkt(r, K_GEN_DATA, chunkFrames * per, 1);
+        a.msgType = wire::MT_DATA;
+        b.pkts.push_back(std::move(a));
+        bytesBefore -= chunkFrames * per;
+    }
+    PktDesc s = genPkt(r, K_GEN_DATA, 3 * per + 1, 1);  // four segments: counters 65535+d .. 65538+d
+    s.msgType = wire::MT_DATA;
+    b.pkts.push_back(std::move(s));
+    PktDesc t = genPkt(r, K_GEN_DATA, 2, 1);
+    t.msgType = wire::MT_DATA;
+    b.pkts.push_back(std::move(t));
+    b.overload = static_cast<int>(idx % 3);
+    return true;
+}
+
+// Encoder::encode and Decoder::decode owe the same answer whenever they are called: during the static initialisation of another
+// translation unit (the driver's objects are linked in front of the library), inside main(), and after main() has returned
+// (atexit handler registered before the library is first used). A fixed set of batches - one per payload kind, aggregated and
+// segmented, mixed message types - is encoded by a fresh encoder and decoded again at all three moments; the frames and the
+// decoded packets must be identical each time.
+std::vector<std::string> codecFixedSet()
+{
+    std::vector<std::string> out;
+    Rng r(0x01C0FFEEULL);
+    for (long i = 0; i < K_COUNT * 2 + 8; ++i)
+    {
+        if (i >= K_COUNT * 2 + 4 && i <= K_COUNT * 2 + 6)
+            continue;  // (the 65535-byte batches: tens of thousands of frames are not needed here)
+        Batch b;
+        kindCase(i, b, r);
+        Encoder enc;
+        enc.setDeviceId(0x1234);
+        enc.setStreamId(7);
+        auto frames = runEncode(enc, b);
+        std::string line = "batch " + std::to_string(i) + ": " + std::to_string(frames.size()) + " frames";
+        Decoder dec;
+        for (auto& f : frames)
+        {
+            line += " " + hex(f, 96);
+            for (auto& p : dec.decode(f.data(), f.size()))
+                line += p ? " -> " + snapPacket(*p).str() : " -> null";
+        }
+        out.push_back(std::move(line));
+    }
+    return out;
+}
+std::string codecFirstDifference(const std::vector<std::string>& a, const std::vector<std::string>& b)
+{
+    for (size_t i = 0; i < a.size() && i < b.size(); ++i)
+        if (a[i] != b[i])
+            return "then: " + a[i].substr(0, 1500) + " now: " + b[i].substr(0, 1500);
+    return a.size() == b.size() ? "" : "different number of results";
+}
+void codecAfterMain();
+// (never destroyed: the atexit handler still reads it)
+const std::vector<std::string>& gCodecBeforeMain = *new std::vector<std::string>((lateReport(), atexit(codecAfterMain), probeInChild(codecFixedSet)));
+void codecAfterMain()
+{
+    if (lateReport().shard != 0)
+        return;
+    std::string d = codecFirstDifference(gCodecBeforeMain, codecFixedSet());
+    if (!d.empty())
+        lateViolation(lateReport().prop + ":codec-result-after-main-returned-differs", d);
+}
+void codecOutsideMainCase(Ctx& c)
+{
+    auto now = codecFixedSet();
+    std::string d = probeDied(gCodecBeforeMain);
+    if (d.empty())
+        d = codecFirstDifference(gCodecBeforeMain, now);
+    ++c.evaluations;
+    c.count("batches_also_encoded_and_decoded_before_and_after_main", now.size());
+    if (!d.empty())
+        c.violation(c.prop + ":codec-result-of-a-call-before-main-differs", "encoded / decoded during static initialisation " + d, "fixed set of batches (one per payload kind, aggregated and segmented, mixed types)");
+}
+
 struct Plan
 {
+    long wrapAlign = 0;
     long bigMax = 0;
     long sweep1 = 0, sweep2 = 0, minSweep = 0, topSweep = 0, countSweep = 0, kinds = 0, empty = 0, randomBatches = 0;
     long histDet = 0, histRandom = 0;
     long total() const
     {
-        return sweep1 + sweep2 + minSweep + topSweep + countSweep + kinds + empty + randomBatches + histDet + histRandom + bigMax;
+        return sweep1 + sweep2 + minSweep + topSweep + countSweep + kinds + empty + randomBatches + histDet + histRandom + bigMax + wrapAlign;
     }
 };
 
-constexpr long kHistDetSpecial = 9;
+constexpr long kHistDetSpecial = 13;
 constexpr long kHistDetPairs = 12 * 12;
 
 Plan plan(const Ctx& c)
@@ -1361,10 +1456,11 @@ Plan plan(const Ctx& c)
         p.kinds = kKindCases;
         p.empty = 4;
         p.randomBatches = th ? 2000000 : 150000;
-        p.histDet = kHistDetPairs + 3;  // all ordered pairs of canonical shapes + the three histories with aborted calls
+        p.histDet = kHistDetPairs + 7;  // all ordered pairs of canonical shapes + the histories with aborted calls (exceptions, allocation failures)
         p.histRandom = th ? 200000 : 12000;
         if (c.prop == "C01")
             p.bigMax = th ? kBigMax * 20 : kBigMax;
+        p.wrapAlign = kWrapAlign;
     }
     else
     {
@@ -1403,7 +1499,8 @@ void runBatchCase(Ctx& c, const Batch& b, Rng& r, uint16_t dev, uint8_t stream)
 
 struct Op
 {
-    int kind = 3;  // 0 setDeviceId, 1 setStreamId, 2 restart, 3 encode, 4 encode whose input iterator throws, 5 encode with an unallocatable maximum
+    int kind = 3;  // 0 setDeviceId, 1 setStreamId, 2 restart, 3 encode, 4 encode whose input iterator throws, 5 encode with an unallocatable maximum,
+                   // 9 encode during which one allocation (number throwAt modulo the call's allocation count) fails with std::bad_alloc
     size_t throwAt = 0;
     uint16_t dev = 0;
     uint8_t stream = 0;
@@ -1525,6 +1622,45 @@ std::vector<Op> detHistory(long j, Rng& r)
                 enc(canonicalShape(0, 1, r));
                 break;
             }
+            case 9:  // every allocation of an encode call fails in turn (std::bad_alloc leaves encode() mid-way); the next calls are
+            case 10:  // judged like any other: segmented data, aggregated mixed types, exact fit status, a long mixed batch
+            case 11:
+            case 12:
+            {
+                for (size_t k = 0; k < 48; ++k)
+                {
+                    Op a;
+                    a.kind = 9;
+                    a.throwAt = k;
+                    if (j == 9)
+                    {
+                        a.batch = canonicalShape(3, 0, r);
+                        a.batch.pkts.resize(1);  // one packet that needs segmentation, through the single-packet overload
+                        a.batch.overload = 3;
+                    }
+                    else if (j == 10)
+                        a.batch = canonicalShape(1, 2, r);
+                    else if (j == 11)
+                        a.batch = canonicalShape(2, 1, r);
+                    else
+                    {
+                        a.batch = canonicalShape(3, 2, r);
+                        Batch more = canonicalShape(1, 2, r);
+                        for (auto& d : more.pkts)
+                        {
+                            d.version = a.batch.pkts[0].version;
+                            a.batch.pkts.push_back(d);
+                        }
+                        a.batch.cfg.min = 40;
+                        a.batch.overload = 2;
+                    }
+                    h.push_back(a);
+                    enc(canonicalShape(static_cast<int>((k + static_cast<size_t>(j)) % 4), static_cast<int>(k % 3), r));
+                    if (k % 3 == 0)
+                        enc(a.batch);  // the very batch whose encoding was aborted
+                }
+                break;
+            }
             case 5:  // many encode calls on one encoder (more than 256, more than 4096): small batches, one config
                 for (int i = 0; i < 4200; ++i)
                 {
@@ -1580,8 +1716,8 @@ std::vector<Op> randomHistory(Ctx& c, Rng& r)
             if (r.chance(1, c10 ? 12 : 20))
             {
                 o.batch = genBatch(r, 6, false, c.prop != "C01");
-                o.kind = r.chance(1, 4) ? 5 : 4;
-                o.throwAt = r.below(o.batch.pkts.size());
+                o.kind = r.chance(1, 4) ? 5 : (r.chance(1, 2) ? 9 : 4);
+                o.throwAt = o.kind == 9 ? r.below(64) : r.below(o.batch.pkts.size());
             }
             else if (r.chance(1, 12))
             {
@@ -1803,7 +1939,9 @@ struct ThrowingIt
 };
 
 // returns true if the call left encode() by an exception
-bool runAbortedEncode(Encoder& enc, const Op& o)
+// completedWithFault: set (with the frames) when a call returned NORMALLY although its failpoint fired - the library swallowed
+// the failure, and what it returned is judged like the result of any other call
+bool runAbortedEncode(Encoder& enc, const Op& o, std::vector<std::vector<uint8_t>>* completedWithFault = nullptr)
 {
     std::vector<Packet> v;
     for (auto& d : o.batch.pkts)
@@ -1811,6 +1949,55 @@ bool runAbortedEncode(Encoder& enc, const Op& o)
     DataContext ctx;
     ctx.minBytesPerMessage = o.batch.cfg.min;
     ctx.maxBytesPerMessage = o.kind == 5 ? static_cast<size_t>(-1) : o.batch.cfg.max;
+    if (o.kind == 9)
+    {
+        // every overload has its own error paths: single packet, iterator range over a vector, range over shared_ptr<Packet>
+        std::vector<std::shared_ptr<Packet>> sp;
+        if (o.batch.overload == 2)
+            for (auto& p : v)
+                sp.push_back(std::make_shared<Packet>(p));
+        auto call = [&](Encoder& e) {
+            if (o.batch.overload == 3 && v.size() == 1)
+                return e.encode(v[0], ctx);
+            if (o.batch.overload == 2)
+                return e.encode(sp.begin(), sp.end(), ctx);
+            return e.encode(v.begin(), v.end(), ctx);
+        };
+        // how many allocations does this call make? (counted on a copy of the encoder, so that the real one sees the call once)
+        long total = 0;
+        {
+            Encoder probe(enc);
+            vf::fp::Count cnt;
+            try
+            {
+                auto frames = call(probe);
+                total = cnt.seen();
+            }
+            catch (const std::exception&)
+            {
+                total = cnt.seen();
+            }
+        }
+        if (total <= 0)
+            return false;
+        bool threw = false;
+        {
+            vf::fp::FailAt f(static_cast<long>(o.throwAt % static_cast<size_t>(total)));
+            try
+            {
+                auto frames = call(enc);
+                if (f.fired() && completedWithFault)
+                    *completedWithFault = std::move(frames);
+                else if (f.fired())
+                    frames.clear();
+            }
+            catch (const std::bad_alloc&)
+            {
+                threw = true;
+            }
+        }
+        return threw;
+    }
     try
     {
         if (o.kind == 5)
@@ -1908,14 +2095,36 @@ void runHistory(Ctx& c, const std::vector<Op>& h, Rng& r)
             prevOp = 6;
             continue;
         }
-        if (o.kind == 4 || o.kind == 5)
+        if (o.kind == 4 || o.kind == 5 || o.kind == 9)
         {
-            c.note(log + (o.kind == 4 ? "encode(iterator throws at packet " + std::to_string(o.throwAt) + ")" : "encode(max=SIZE_MAX)"));
-            bool threw = runAbortedEncode(enc, o);
+            c.note(log + (o.kind == 4 ? "encode(iterator throws at packet " + std::to_string(o.throwAt) + ")" : (o.kind == 5 ? std::string("encode(max=SIZE_MAX)") : "encode(" + describe(o.batch, dev, stream) + ") with allocation number " + std::to_string(o.throwAt) + " (modulo the call's allocation count) failing")));
+            std::vector<std::vector<uint8_t>> swallowed;
+            bool swallowedSet = false;
+            bool threw;
+            {
+                std::vector<std::vector<uint8_t>> tmp;
+                tmp.push_back({0xEE});  // sentinel: replaced only if the call completed with its failpoint fired
+                threw = runAbortedEncode(enc, o, &tmp);
+                if (!(tmp.size() == 1 && tmp[0].size() == 1 && tmp[0][0] == 0xEE))
+                {
+                    swallowed = std::move(tmp);
+                    swallowedSet = true;
+                }
+            }
+            if (swallowedSet)
+            {
+                // an allocation failed inside encode() and the call still returned frames: they owe everything a normal call owes
+                std::string input = log + "encode(" + describe(o.batch, dev, stream) + ") during which allocation number " + std::to_string(o.throwAt) + " (modulo the call's count) failed; the call returned normally";
+                Reporter rep{c, input};
+                EncodeResult res = analyse(c, rep, o.batch, std::move(swallowed), dev, stream, r, true);
+                (void) res;
+                c.count("encode_calls_that_completed_although_an_allocation_failed");
+            }
             log += o.kind == 4 ? "encode(ITERATOR THROWS at " + std::to_string(o.throwAt) + " of " + std::to_string(o.batch.pkts.size()) + " pkts,max=" + std::to_string(o.batch.cfg.max) + "); "
-                               : "encode(" + std::to_string(o.batch.pkts.size()) + " pkts,max=SIZE_MAX -> throws); ";
+                               : (o.kind == 5 ? "encode(" + std::to_string(o.batch.pkts.size()) + " pkts,max=SIZE_MAX -> throws); "
+                                              : "encode(" + std::to_string(o.batch.pkts.size()) + " pkts,max=" + std::to_string(o.batch.cfg.max) + ", ALLOCATION " + std::to_string(o.throwAt) + " FAILS); ");
             if (threw)
-                c.count("encode_calls_left_by_exception");
+                c.count(o.kind == 9 ? "encode_calls_left_by_allocation_failure" : "encode_calls_left_by_exception");
             // the frames of an aborted call were never emitted: the next emitted frame re-synchronises the C09 shadow counter
             resync = true;
             hsig = mix64(hsig, 40 + static_cast<uint64_t>(o.kind));
@@ -2054,6 +2263,8 @@ long countCases(Ctx& c)
 
 void runCase(Ctx& c, long idx)
 {
+    if (idx == 0)
+        codecOutsideMainCase(c);
     Plan p = plan(c);
     long i = idx;
     Batch b;
@@ -2158,8 +2369,8 @@ void runCase(Ctx& c, long idx)
     {
         Rng r = c.fixedRng(idx);
         long j = i;
-        if (p.histDet == kHistDetPairs + 3)
-            j = (i < kHistDetPairs) ? i + kHistDetSpecial : 6 + (i - kHistDetPairs);  // batch properties: the pair histories, then the aborted-call histories 6..8
+        if (p.histDet == kHistDetPairs + 7)
+            j = (i < kHistDetPairs) ? i + kHistDetSpecial : 6 + (i - kHistDetPairs);  // batch properties: the pair histories, then the aborted-call histories 6..12
         runHistory(c, detHistory(j, r), r);
         return;
     }
@@ -2171,12 +2382,22 @@ void runCase(Ctx& c, long idx)
         return;
     }
     i -= p.histRandom;
+    if (i < p.bigMax)
     {
         Rng r = (i < kBigMax) ? c.fixedRng(idx) : c.caseRng(idx);
         ids(r, dev, stream);
         bigMaxCase(i, b, r);
         runBatchCase(c, b, r, dev, stream);
         c.count("frame_sizes_above_64KiB_cases");
+        return;
+    }
+    i -= p.bigMax;
+    {
+        Rng r = c.fixedRng(idx);
+        ids(r, dev, stream);
+        wrapAlignCase(i, b, r);
+        runBatchCase(c, b, r, dev, stream);
+        c.count("segmented_packets_starting_at_counters_around_the_wrap");
     }
 }
 
